@@ -160,7 +160,7 @@ def asm_sources(ck, P):
 
 
 def main():
-    ck = Check('C11')
+    ck = Check('C11', level='exploration')   # function/no-indeterminate theorems cover the models; host-state independence is explored
     P = THOROUGH if ck.thorough() else QUICK
     ck.cov['trusted_base'] = ['Coq 8.16.1 kernel + VM', 'AsmModel.v/AsmLayout.v hand model of hexasm.hpp (tied by correspondence: here and in C05/C10/C17)',
                               'XFront.v hand model of xcmp.hpp Lexer/Parser (tied in C09)', 'extraction + ocaml/asmdrv.ml',
